@@ -73,6 +73,6 @@ Proof. exact G_Validate_eq. Qed.
 Print Assumptions C05_source_Validate_is_the_model.
 
 Theorem C05_source_VerifyAssertionConditions_is_the_model : forall cfg now a,
-  G_VerifyAssertionConditions cfg now a = PVal (verify_conditions cfg now a).
+  G_VerifyAssertionConditions cfg now a = PVal (res_some (verify_conditions cfg now a)).
 Proof. exact G_VerifyAssertionConditions_eq. Qed.
 Print Assumptions C05_source_VerifyAssertionConditions_is_the_model.
